@@ -7,3 +7,4 @@ open GoMail.Props.C12
 #print axioms producer_failure_reported_plan
 #print axioms producer_failure_reported
 #print axioms writeTo_reports_producer_failure
+#print axioms no_narrow_counters
